@@ -218,10 +218,4 @@ func c20Mount(logbs uint32, is64 bool) {
 func VP_C20_mount_1k_64() { c20Mount(0, true) }
 func VP_C20_mount_1k_32() { c20Mount(0, false) }
 func VP_C20_mount_2k_64() { c20Mount(1, true) }
-func VP_C20_mount_4k_64() {
-	if vp.Thorough() {
-		c20Mount(2, true)
-	} else {
-		vp.Cover("thorough tier only")
-	}
-}
+func VP_C20_mount_4k_64() { c20ThoroughOnly(func() { c20Mount(2, true) }) }
